@@ -5,7 +5,7 @@ use anyhow::{anyhow, bail, Context, Result};
 use futures::{future::join_all, stream::FuturesUnordered, SinkExt, StreamExt};
 use log::{error, info};
 use quinn::{Connecting, Connection, Endpoint, IdleTimeout, VarInt};
-use selium_protocol::error_codes::INVALID_TOPIC_NAME;
+use selium_protocol::error_codes::{INVALID_TOPIC_NAME, UNKNOWN_ERROR};
 use selium_protocol::{error_codes, BiStream, ErrorPayload, Frame, TopicName};
 use selium_std::errors::SeliumError;
 use std::net::SocketAddr;
@@ -163,7 +163,18 @@ async fn handle_stream(
     // Receive header
     if let Some(result) = stream.next().await {
         let frame = result?;
-        let topic = frame.get_topic().ok_or(anyhow!("Expected header frame"))?;
+        let topic = match frame.get_topic() {
+            Some(topic) => topic,
+            // Not a registration: refuse the stream explicitly instead of just dropping it
+            None => {
+                let payload = ErrorPayload {
+                    code: UNKNOWN_ERROR,
+                    message: "Expected a registration frame".into(),
+                };
+                stream.send(Frame::Error(payload)).await?;
+                return Err(anyhow!("Expected header frame"));
+            }
+        };
 
         #[cfg(feature = "__cloud")]
         {
